@@ -216,12 +216,17 @@ class SymCtx(BaseCtx):
         self.reg.append((name, 'bool', v))
         return SymBool(v)
 
-    def float(self, name, finite=True):
+    def float(self, name, finite=True, lo=None, hi=None):
         v = z3.FP(name, core.F64)
         if finite:
             self.e.add_unary(z3.Not(z3.Or(z3.fpIsNaN(v), z3.fpIsInf(v))))
+        iv = None
+        if lo is not None and hi is not None:
+            self.e.add_unary(z3.And(z3.fpGEQ(v, core.fpval(lo)),
+                                    z3.fpLEQ(v, core.fpval(hi))))
+            iv = (float(lo), float(hi))
         self.reg.append((name, 'float', v))
-        return SymFloat(v)
+        return SymFloat(v, iv)
 
     def choice(self, name, options):
         """fork over a finite list of python values"""
@@ -342,7 +347,7 @@ class ConcCtx(BaseCtx):
     def bool(self, name):
         return self.i[name]
 
-    def float(self, name, finite=True):
+    def float(self, name, finite=True, lo=None, hi=None):
         return self.i[name]
 
     def choice(self, name, options):
